@@ -65,6 +65,7 @@ func checkC05(r *Run) {
 	// feature cases: small packs so that one unsupported construct does not take a whole pack down for a target
 	runPacksWith(r, cases, 40, variants, "lower", nil, &st, featSource)
 	r.Count("featgen_cases", len(cases))
+	c05Using(r)
 
 	// the (parent × child) table under a few targets
 	rng := newRng(r.Seed, "c05")
